@@ -113,6 +113,7 @@ func cmdCheck(args []string) int {
 	var obls []*Obligation
 	usesCnt := false
 	usesDv := false
+	orbitLemmas := map[string]string{}
 	var unsupported []string
 	notes := map[string]bool{}
 	funcs := map[string]bool{}
@@ -128,6 +129,11 @@ func cmdCheck(args []string) int {
 		}
 		if fr.Enc != nil && fr.Enc.usesDv {
 			usesDv = true
+		}
+		if fr.Enc != nil {
+			for n, script := range fr.Enc.orbitLemmas {
+				orbitLemmas[n] = Prelude + RunEndAxioms + script
+			}
 		}
 		if fr.Enc != nil && fr.Enc.usesRunEnd {
 			notes["definitional axioms of runEnd (first address outside a character class, bounded by the slice end)"] = true
@@ -154,6 +160,9 @@ func cmdCheck(args []string) int {
 	}
 	if usesDv {
 		extra = append(extra, lemmaProofs(DvLemmaProofs)...)
+	}
+	if len(orbitLemmas) > 0 {
+		extra = append(extra, lemmaProofs(orbitLemmas)...)
 	}
 	workers := runtime.NumCPU()
 	results := DischargeAll(obls, timeout, workers, *tier == "thorough")
